@@ -513,7 +513,9 @@ class Builder:
             #      calls `.method(`; `$LET` is the variable that statement binds.  A failed assertion is reported
             #      as its own obligation and is assumed afterwards, so later clauses are judged relative to it.
             for (meth, ptxt) in c.proofs_after:
-                mm = re.search(r"(?<![A-Za-z0-9_])" + re.escape(meth) + r"\s*\(", m[body[0]:body[1]])
+                meth, _, nth = meth.partition("#")
+                occ = list(re.finditer(r"(?<![A-Za-z0-9_])" + re.escape(meth) + r"\s*\(", m[body[0]:body[1]]))
+                mm = occ[int(nth or 0)] if int(nth or 0) < len(occ) else None
                 if not mm:
                     self.report.setdefault("lost_assert_anchors", []).append("%s proof after %s(" % (qual, meth))
                     continue
